@@ -2,6 +2,6 @@ import DosModel.Model.Content
 import DosModel.Model.Eval
 import DosModel.Gen.DosnodeConsts
 def main : IO Unit := Dos.lineLoop (fun l =>
-  match Dos.Eval.stepLine l with
+  match Dos.Eval.stepLine Dos.Gen.padSize Dos.Gen.stripLen l with
   | some o => o
   | none => Dos.Content.stepLine Dos.Gen.padSize Dos.Gen.stripLen l)
